@@ -623,6 +623,176 @@ def check_c16(tier, seed):
     finish(prop, tier, seed, lines, violations, len(known_hits), res["runs"], res["distinct_nontrivial"], wall, missing)
 
 
+# ---------------------------------------------------------------- C19: feature configurations
+
+VARIANTS = ["std_nodim", "libm_dim", "libm_nodim", "micromath_dim", "micromath_nodim"]
+import re as _re
+_VAL = _re.compile(r"[0-9a-f]{8}")
+
+
+def run_traces(binary, prop, seed, runs, first=0, strip=False, tier="quick"):
+    cmd = [binary, "traces", "--prop", prop, "--seed", str(seed), "--runs", str(runs), "--from", str(first), "--canon", "--full",
+           "--tier", tier]
+    if strip:
+        cmd.append("--strip-units")
+    r = run(cmd)
+    if r.returncode != 0:
+        print(r.stdout[-3000:])
+        harness_error("trace run failed: %s" % " ".join(cmd))
+    runs_out = {}
+    cur = None
+    for line in r.stdout.splitlines():
+        if line.startswith("RUN "):
+            parts = line.split()
+            cur = int(parts[1])
+            runs_out[cur] = {"meta": dict(p.split("=") for p in parts[3:]), "lines": []}
+        elif cur is not None:
+            runs_out[cur]["lines"].append(line.strip())
+    return runs_out
+
+
+def f32_of(hexs):
+    import struct
+    return struct.unpack(">f", bytes.fromhex(hexs))[0]
+
+
+def compare_runs(ref, other, backend):
+    """Returns None when the two canonical traces agree under the C19 rules, else a description."""
+    import math
+    if len(ref["lines"]) != len(other["lines"]):
+        return "trace lengths differ: %d vs %d lines" % (len(ref["lines"]), len(other["lines"]))
+    pow_run = ref["meta"].get("pow") == "1"
+    scale = 0.0
+    if pow_run and backend == "libm":
+        for l in ref["lines"]:
+            for h in _VAL.findall(l):
+                v = f32_of(h)
+                if math.isfinite(v):
+                    scale = max(scale, abs(v))
+    for i, (a, b) in enumerate(zip(ref["lines"], other["lines"])):
+        if a == b:
+            continue
+        sa, sb = _VAL.sub("#", a), _VAL.sub("#", b)
+        if sa != sb:
+            return "line %d differs in category / timestamp / structure:\n    ref:   %s\n    other: %s" % (i, a[:300], b[:300])
+        va, vb = _VAL.findall(a), _VAL.findall(b)
+        for x, y in zip(va, vb):
+            if x == y:
+                continue
+            fx, fy = f32_of(x), f32_of(y)
+            if (math.isnan(fx) and math.isnan(fy)) or fx == fy:
+                continue
+            if pow_run and backend == "micromath":
+                continue  # power function results exempt; category and timestamp already compared
+            if pow_run and backend == "libm" and math.isfinite(fx) and math.isfinite(fy) and abs(fx - fy) <= 1e-4 * max(scale, 1e-30):
+                continue
+            return "line %d: value %r vs %r\n    ref:   %s\n    other: %s" % (i, fx, fy, a[:300], b[:300])
+    return None
+
+
+def check_c19(tier, seed, only_run=None, only_mode=None, only_build=None):
+    prop = "C19"
+    t0 = time.time()
+    build_main()
+    from concurrent.futures import ThreadPoolExecutor
+    with ThreadPoolExecutor(max_workers=3) as ex:
+        bins = dict(zip(VARIANTS, ex.map(variant_binary, VARIANTS)))
+    nwell, nill = (300, 150) if tier == "quick" else (30000, 15000)
+    first = 0
+    if only_run is not None:
+        first, nwell, nill = only_run, 1, 1
+    lines = []
+    violations = 0
+    compared = 0
+    ops_compared = 0
+    per_build = {}
+    distinct = set()
+    samples = []
+    known = load_known()
+
+    def report(mode, build, idx, why):
+        nonlocal violations
+        sig = "C19|trace_divergence|%s:%s" % (build, mode)
+        k = known_match(known, prop, sig)
+        if k:
+            lines.append("KNOWN-FINDING: property=%s %s [%s]" % (prop, k.get("what", ""), sig))
+            return
+        dest_dir = os.path.join(REPLAYS, prop)
+        os.makedirs(dest_dir, exist_ok=True)
+        dest = os.path.join(dest_dir, "%s-%s-seed%d-run%d.c19" % (build, mode, seed, idx))
+        with open(dest, "w") as f:
+            f.write("# C19 replay: the same plan executed by two builds; canonical traces must agree\n")
+            f.write("# %s\n" % why.replace("\n", "\n# "))
+            f.write("seed=%d\nrun=%d\nmode=%s\nbuild=%s\ntier=%s\nexpect=%s\n" % (seed, idx, mode, build, tier, sig))
+        violations += 1
+        lines.append("VIOLATION property=%s replay=%s" % (prop, dest))
+        lines.append("  signature=%s detail=run %d: %s" % (sig, idx, why.replace("\n", " | ")))
+
+    chunk = 3000
+    for mode, total, builds in (("well", nwell, VARIANTS), ("ill", nill, [v for v in VARIANTS if v.endswith("nodim")])):
+        if only_mode and mode != only_mode:
+            continue
+        p = "C19" if mode == "well" else "C19ill"
+        for start in range(first, first + total, chunk):
+            n = min(chunk, first + total - start)
+            ref = run_traces(BIN, p, seed, n, start, strip=(mode == "ill"), tier=tier)
+            if not samples and ref:
+                k0 = sorted(ref)[0]
+                samples = [{"run": k0, "mode": mode, "meta": ref[k0]["meta"], "canonical_trace_head": ref[k0]["lines"][:6]}]
+            for r in ref.values():
+                distinct.add((mode, r["meta"].get("world"), hash(tuple(r["lines"]))))
+            failed_builds = set()
+            for b in builds:
+                if only_build and b != only_build:
+                    continue
+                backend = b.split("_")[0]
+                other = run_traces(bins[b], p, seed, n, start, tier=tier)
+                for idx in sorted(ref):
+                    compared += 1
+                    ops_compared += len(ref[idx]["lines"])
+                    per_build[b] = per_build.get(b, 0) + 1
+                    why = None
+                    if idx not in other:
+                        why = "run missing in build"
+                    else:
+                        why = compare_runs(ref[idx], other[idx], backend)
+                        if why is None and mode == "ill" and any("panic" in l for l in other[idx]["lines"]):
+                            why = "an ill-dimensioned plan panicked in an unchecked build"
+                    if why and (b, mode) not in failed_builds:
+                        failed_builds.add((b, mode))
+                        report(mode, b, idx, why)
+    wall = time.time() - t0
+    os.makedirs(EVID, exist_ok=True)
+    ev = {
+        "property_id": prop, "tier": tier, "seed": seed, "level": "exploration",
+        "coverage": {
+            "evaluations": compared,
+            "distinct_nontrivial": len(distinct),
+            "rule": ("each case is one seeded plan (node / combinator / device / settable worlds; 'ill' = quantities in wrong or "
+                     "changing units) executed by the simulator linked against rrtk in two feature configurations; evaluations = "
+                     "(plan, build) pairs whose canonical traces (category, error value, i64 timestamp, f32 bits per op; units "
+                     "dropped) were compared with the std+dim_check_release reference (for 'ill': with the unit-corrected twin "
+                     "in the checked reference build). distinct = distinct (mode, world, reference trace) triples, counted with "
+                     "a set; every plan contains at least one stateful update, fault or device update."),
+            "samples": samples,
+            "builds": ["std+dim_check_release (reference)"] + VARIANTS,
+            "pairs_per_build": per_build,
+            "trace_lines_compared": ops_compared,
+            "runs_per_hour": int(compared / max(wall, 1e-6) * 3600),
+            "exemptions": "values of runs containing an EWMA or exponent node: libm within 1e-4 of the run's value scale, micromath category+timestamp only",
+            "components": {"real": ["every rrtk type reached by the node, comb, device and settable worlds, in six feature configurations"],
+                           "stub": ["leaf sensors, clocks, motors, reference build as oracle"]},
+            "exhaustive": False,
+        },
+        "assumptions": ["the std + dim_check_release build is the reference; agreement of all six builds is what is checked",
+                        "plan generation is build-independent (no float-library calls on the generation path that differ between builds)"] + ASSUMPTIONS[3:],
+        "wall_s": round(wall, 3),
+        "violations": violations,
+    }
+    json.dump(ev, open(os.path.join(EVID, prop + ".json"), "w"), indent=1)
+    finish(prop, tier, seed, lines, violations, 0, compared, len(distinct), wall, [])
+
+
 def variant_binary(name):
     """Build (if needed) and return the simulator binary of a feature variant, or None."""
     vdir = os.path.join(VERIF, "variants", name)
@@ -667,6 +837,9 @@ def main():
     except ValueError:
         seed = 1
     seed &= (1 << 63) - 1
+    if replay and replay.endswith(".c19"):
+        kv = dict(l.strip().split("=", 1) for l in open(replay) if "=" in l and not l.startswith("#"))
+        check_c19(kv.get("tier", "quick"), int(kv["seed"]), only_run=int(kv["run"]), only_mode=kv["mode"], only_build=kv["build"])
     if replay and replay.endswith(".miri"):
         if miri_replay(replay):
             print("VIOLATION property=%s replay=%s" % (prop, replay))
@@ -684,6 +857,8 @@ def main():
         check_c17(tier, seed)
     if prop == "C16":
         check_c16(tier, seed)
+    if prop == "C19":
+        check_c19(tier, seed)
     if prop in SIM_PROPS:
         sim_batch(prop, tier, seed, SIM_PROPS[prop])
     harness_error("no check registered for %s" % prop)
